@@ -147,37 +147,61 @@ def main():
             except Exception as e:
                 problems.append({"kind": "harness-crash", "detail": "bad stats.json: %s" % e})
         ops = os.path.join(outdir, "ops.txt")
-        impl = read_lines(os.path.join(outdir, "impl.txt"))
+        impl_path = os.path.join(outdir, "impl.txt")
         if driver_ok and os.path.exists(ops):
+            import subprocess
             drv = os.path.join(C.lean_dir(), ".lake", "build", "bin", driver)
-            with open(ops) as fin:
-                import subprocess
-                p = subprocess.run([drv], stdin=fin, stdout=subprocess.PIPE, stderr=subprocess.PIPE, text=True,
-                                   errors="replace")
-            model = p.stdout.splitlines()
+            model_path = os.path.join(outdir, "model.txt")
+            with open(ops) as fin, open(model_path, "w") as fout:
+                p = subprocess.run([drv], stdin=fin, stdout=fout, stderr=subprocess.PIPE, text=True, errors="replace")
             if p.returncode != 0:
                 problems.append({"kind": "model-crash", "detail": p.stderr[-2000:]})
-            corr_lines = len(impl)
-            if rc != 0:
-                # the harness died: the tails of the streams are not aligned; compare the common prefix
-                n = max(0, min(len(model), len(impl)) - 1)
-                model, impl = model[:n], impl[:n]
-            i = C.first_diff(model, impl)
-            if i is not None:
-                k, ki = C.case_of_line(impl if i < len(impl) else model, i)
-                ops_lines = read_lines(ops)
-                # the op lines of that case
+            # streaming comparison (the streams can be tens of millions of lines)
+            diff = None
+            last_case = None
+            n = 0
+            prev = None  # compare with one line of delay so that a dead harness' ragged tail is ignored
+            with open(model_path, errors="replace") as fm, open(impl_path, errors="replace") as fi:
+                while True:
+                    lm, li = fm.readline(), fi.readline()
+                    if not lm and not li:
+                        break
+                    if rc != 0 and (not lm or not li):
+                        break  # the harness died: only the common prefix is aligned
+                    if prev is not None:
+                        a_, b_, idx = prev
+                        if a_.startswith("case "):
+                            last_case = a_.split()[1] if len(a_.split()) > 1 else None
+                        elif b_.startswith("case "):
+                            last_case = b_.split()[1] if len(b_.split()) > 1 else None
+                        if a_ != b_:
+                            diff = (idx, a_, b_)
+                            break
+                    prev = (lm.rstrip("\n") if lm else "<eof>", li.rstrip("\n") if li else "<eof>", n)
+                    n += 1
+                if diff is None and prev is not None and rc == 0:
+                    a_, b_, idx = prev
+                    if a_.startswith("case ") and len(a_.split()) > 1:
+                        last_case = a_.split()[1]
+                    if a_ != b_:
+                        diff = (idx, a_, b_)
+            corr_lines = n
+            if diff is not None:
+                i, mline, iline = diff
+                k = last_case
                 case_ops = []
                 take = False
-                for ln in ops_lines:
-                    if ln.startswith("case "):
-                        take = (ln.split()[1] == k)
-                    if take:
-                        case_ops.append(ln)
-                problems.append({"kind": "correspondence", "case": k, "line": i,
-                                 "model": model[i] if i < len(model) else "<eof>",
-                                 "impl": impl[i] if i < len(impl) else "<eof>",
-                                 "ops": case_ops[:400],
+                with open(ops, errors="replace") as fo:
+                    for ln in fo:
+                        ln = ln.rstrip("\n")
+                        if ln.startswith("case "):
+                            if take:
+                                break
+                            take = (len(ln.split()) > 1 and ln.split()[1] == k)
+                        if take and len(case_ops) < 400:
+                            case_ops.append(ln)
+                problems.append({"kind": "correspondence", "case": k, "line": i, "model": mline, "impl": iline,
+                                 "ops": case_ops,
                                  "detail": "model and implementation differ at stream line %d (case %s)" % (i, k)})
         for f in parse_oracle(outdir):
             fid = f.get("kf")
